@@ -11,6 +11,7 @@ func init() {
 			{Name: "population", Quick: 1500, Thorough: 80000, Run: c09Pop},
 			{Name: "run-fragmenting-histories", Quick: 1500, Thorough: 80000, Run: c09RunHist},
 			{Name: "representation-tie-targets", Quick: 1500, Thorough: 60000, Run: c09Ties},
+			{Name: "threshold-cardinality-targets", Quick: 1500, Thorough: 60000, Run: func(c *Ctx) { thresholdTargets(c, false) }},
 		},
 	})
 }
